@@ -16,3 +16,7 @@ consts = {k: {"ty": v.get("ty"), "v": json.dumps(v.get("v"), sort_keys=True)} fo
 p2 = os.path.join(os.path.dirname(p), "constnames.json")
 json.dump(consts, open(p2, "w"), indent=0)
 print("frozen %d constants" % len(consts))
+adtf = {a: [[f["name"], f["ty"]] for f in v["variants"][0]["fields"]] for a, v in sorted(F.adts.items()) if v.get("kind") == "struct" and len(v.get("variants", [])) == 1 and a.startswith("preflate_rs::")}
+p3 = os.path.join(os.path.dirname(p), "adtfields.json")
+json.dump(adtf, open(p3, "w"), indent=0)
+print("frozen fields of %d structs" % len(adtf))
